@@ -221,6 +221,32 @@ def interval_run(fn, seconds_param):
     return seen
 
 
+def parse_value_guards(ctx, repo, rule):
+    """parse_hms / str2num refuse a text only when a field fails to convert: every raise lies in an except handler.  A raise under a
+    test of the VALUE of a field (range checks) removes documented forms such as running-on minutes, '61:15.20'."""
+    mod = repo.module(UTILS)
+    for fname in ('parse_hms', 'str2num'):
+        fn = mod.func(fname)
+        for r in [x for x in ast.walk(fn) if isinstance(x, ast.Raise)]:
+            p_ = getattr(r, '_parent', None)
+            in_handler = False
+            cond = None
+            while p_ is not None and p_ is not fn:
+                if isinstance(p_, ast.ExceptHandler):
+                    in_handler = True
+                if isinstance(p_, ast.If) and cond is None:
+                    cond = p_
+                p_ = getattr(p_, '_parent', None)
+            if in_handler:
+                continue
+            if cond is not None and any(isinstance(c, ast.Compare) and any(isinstance(o, (ast.Lt, ast.LtE, ast.Gt, ast.GtE)) for o in c.ops)
+                                        for c in ast.walk(cond.test)):
+                ctx.finding(rule, '%s::%s::refuses a field by its value' % (UTILS, fname), UTILS, r.lineno,
+                            '%s raises when `%s`: a text whose fields all convert is refused because of the size of a field, so forms such as '
+                            "running-on minutes ('61:15.20' = 1:01:15.20) no longer parse although the same duration in another form does"
+                            % (fname, unparse(cond.test)), '61:15.20')
+
+
 def run(ctx, repo):
     mod = repo.module(UTILS)
     ctx.explanation = (
@@ -235,6 +261,8 @@ def run(ctx, repo):
                    'outside a handler that converts OverflowError to ValueError; no int() of a float')
     ctx.rule('R6', "round_up_str_num: the integer part taken from split('.') may be empty; every path to the return tests or rebuilds it")
     ctx.rule('R7', 'round_up_str_num: the slice bounded by the noise cut-off keeps exactly maxDP characters (polynomial slice length)')
+    ctx.rule('R10', 'no raise-guard of round_up_str_num refuses a precision in 0..maxDP (guard test folded over the complete precision domain)')
+    ctx.rule('R11', 'format_seconds_as_time formats the decimals from the remainder seconds - int(seconds)')
     ctx.rule('R9', 'documented defaults: round_up_str_num cuts noise after 5 decimals, format_seconds_as_time prints whole seconds')
     ctx.rule('R8', 'parse_hms / str2num: no index subscript, division, format of wrong arity or unknown call outside a handler that converts it '
                    'to ValueError (may-raise inventory, handlers included)')
@@ -399,6 +427,70 @@ def run(ctx, repo):
     if n_cut == 0:
         ctx.finding('R7', '%s::round_up_str_num::no cut-off' % UTILS, UTILS, rus.lineno,
                     'no slice of round_up_str_num is bounded by %s: the noise beyond the %s-th decimal is not removed' % (cut, cut))
+    # ---- R10 no precision in the documented domain 0..maxDP is refused: every raise-guard of round_up_str_num whose test reads only the
+    # precision and the cut-off is evaluated (constant folding of the test) for each precision 0..maxDP with the default cut-off - a
+    # decision table over the complete finite domain of that parameter
+    precp = rus.args.args[1].arg
+    maxdp_default = 5
+    a_ = rus.args
+    dmap = dict(zip([x.arg for x in a_.args[len(a_.args) - len(a_.defaults):]], a_.defaults))
+    if isinstance(dmap.get(cut), ast.Constant) and isinstance(dmap[cut].value, int):
+        maxdp_default = dmap[cut].value
+    n_g = 0
+    for g_ in ast.walk(rus):
+        if isinstance(g_, ast.If) and any(isinstance(x, ast.Raise) for st_ in g_.body for x in ast.walk(st_)):
+            names_ = {x.id for x in ast.walk(g_.test) if isinstance(x, ast.Name)}
+            if not names_ or not names_ <= {precp, cut}:
+                continue
+            n_g += 1
+            refused = []
+            for pv in range(0, maxdp_default + 1):
+                try:
+                    if fold.Folder().expr(g_.test, {precp: pv, cut: maxdp_default}):
+                        refused.append(pv)
+                except Exception as e:
+                    raise AnalysisError('round_up_str_num: guard %s not foldable: %s' % (unparse(g_.test), e))
+            if refused:
+                ctx.finding('R10', '%s::round_up_str_num::precision %s refused' % (UTILS, refused), UTILS, g_.lineno,
+                            'the guard `%s` refuses the precision(s) %s, which lie inside the documented range 0..%d: every call with that precision '
+                            'raises instead of returning the ceiling' % (unparse(g_.test), refused, maxdp_default), {'prec': refused[0]})
+            else:
+                ctx.ok('R10', 'guard `%s` admits every precision 0..%d' % (unparse(g_.test), maxdp_default))
+    if n_g == 0:
+        ctx.ok('R10', 'round_up_str_num has no guard on the precision')
+    # ---- R11 the text handed to round_up_str_num is the remainder of the same integer part that becomes h:m:s: frac = seconds - int(seconds);
+    # decimals read off the rounded text of the whole duration lose the carry when the text rounds up to the next second
+    fsa = mod.func('format_seconds_as_time')
+    sparam = fsa.args.args[0].arg
+    for c in ast.walk(fsa):
+        if isinstance(c, ast.Call) and call_name(c) == 'round_up_str_num' and c.args:
+            fm = [m_ for m_ in ast.walk(c.args[0]) if isinstance(m_, ast.BinOp) and isinstance(m_.op, ast.Mod) and isinstance(m_.left, ast.Constant)
+                  and isinstance(m_.left.value, str)]
+            if not fm:
+                continue
+            val = fm[0].right
+            okr = False
+            why = unparse(val)
+            if isinstance(val, ast.Name) and val.id != sparam:
+                defs_ = [a.value for a in ast.walk(fsa) if isinstance(a, ast.Assign) and any(isinstance(t, ast.Name) and t.id == val.id for t in a.targets)
+                         and a.lineno < c.lineno]
+                for d_ in defs_:
+                    subs = [b for b in ast.walk(d_) if isinstance(b, ast.BinOp) and isinstance(b.op, ast.Sub) and isinstance(b.left, ast.Name)
+                            and b.left.id == sparam]
+                    for b in subs:
+                        r_ = b.right
+                        if (isinstance(r_, ast.Call) and call_name(r_) == 'int') or (isinstance(r_, ast.Name) and any(
+                                isinstance(a.value, ast.Call) and call_name(a.value) == 'int' for a in ast.walk(fsa)
+                                if isinstance(a, ast.Assign) and any(isinstance(t, ast.Name) and t.id == r_.id for t in a.targets))):
+                            okr = True
+            if okr:
+                ctx.ok('R11', 'the decimals are formatted from the remainder seconds - int(seconds)')
+            else:
+                ctx.finding('R11', '%s::format_seconds_as_time::decimals not taken from the remainder' % UTILS, UTILS, c.lineno,
+                            'round_up_str_num receives the text of `%s`, not of the remainder seconds - int(seconds): the whole seconds are truncated '
+                            'while the text is rounded to nearest, so a duration within 5e-10 below a whole second prints a full second too low'
+                            % why, 'format_seconds_as_time(60 - 2**-47, 3)')
+    parse_value_guards(ctx, repo, 'R2')
     # ---- R9 the defaults the statement names: noise begins after the fifth decimal; formatting defaults to whole seconds
     def default_of(fn_, name):
         a = fn_.args
